@@ -62,6 +62,9 @@ def run(ctx: Ctx):
               ' when an operator has to create the container for its outputs, a plain'
               ' integer output key is a dict key — only Key.Index addresses a list position'
               ' (R-C18-8)', c18.r8, min_instances=1)
+  ctx.include('R-C08-14', '"assign adds exactly the named keys": an output routed to Key.SKIP is'
+              ' discarded whatever its position — the reserved keys mean the same on an empty'
+              ' record as on an existing one (R-C18-9)', c18.r9, min_instances=2)
   from mlmverif.props import c12
   ctx.include('R-C08-7', '"filter keeps order and drops exactly the rejected'
               ' records": with error skipping the decisions stay paired with'
